@@ -1,5 +1,5 @@
 (* Conc/Sem.v — property C20: skeleton language of shared-state events (the type the
-   go/ast translator harness/translate/cache.go targets), its expansion into straight-line
+   go/ast translator harness/c20/translate.go targets), its expansion into straight-line
    event traces (one per control path, deferred calls run at every Return), the executable
    lock-discipline check, and the interleaving semantics with an RW lock.
    NO proofs in this file (Conc/Theory.v has them). *)
@@ -110,7 +110,18 @@ Fixpoint run_hold (h : hold) (tr : list event) : option hold :=
 Definition trace_ok (tr : list event) : bool :=
   match run_hold HN tr with Some HN => true | _ => false end.
 
-Definition discipline_ok (sk : skeleton) : bool := forallb trace_ok (paths sk).
+(* the lock discipline alone *)
+Definition lock_ok (sk : skeleton) : bool := forallb trace_ok (paths sk).
+
+Definition is_access (e : event) : bool := match e with EvRead | EvWrite => true | _ => false end.
+Definition is_write (e : event) : bool := match e with EvWrite => true | _ => false end.
+
+(* at most one access to the shared map per call: the access is the call's linearization point *)
+Definition one_access (tr : list event) : bool := Nat.leb (List.length (filter is_access tr)) 1.
+
+(* discipline of a method = lock discipline + at most one map access, on every control path *)
+Definition discipline_ok (sk : skeleton) : bool :=
+  forallb (fun tr => trace_ok tr && one_access tr) (paths sk).
 
 (* ------------------------------------------------------------------------------------ *)
 (* 3. Interleaving semantics.                                                            *)
@@ -147,25 +158,28 @@ Definition lk_step (l : lockst) (e : event) : lkres :=
 Section Sem.
   Variable V : Type.                   (* abstract value of the shared map `cache` *)
 
-  (* one pending action of a thread: the event and, for a write, the update it applies *)
-  Definition action : Type := (event * (V -> V))%type.
+  (* one pending action of a thread: index of the call (within the thread) it belongs to,
+     the event and, for a write, the update it applies *)
+  Record action := mkact { a_cid : nat; a_ev : event; a_upd : V -> V }.
 
   (* a call = one control path of one method, with the update its MapWrite performs *)
   Record call := mkcall { c_trace : list event; c_upd : V -> V }.
-  Definition call_actions (c : call) : list action := map (fun e => (e, c_upd c)) (c_trace c).
-  Definition thread_actions (cs : list call) : list action := flat_map call_actions cs.
+  Definition call_actions (k : nat) (c : call) : list action := map (fun e => mkact k e (c_upd c)) (c_trace c).
+  Fixpoint thread_actions_from (k : nat) (cs : list call) : list action :=
+    match cs with
+    | [] => []
+    | c :: cs' => call_actions k c ++ thread_actions_from (S k) cs'
+    end.
+  Definition thread_actions (cs : list call) : list action := thread_actions_from 0 cs.
 
   Record state := mkst { st_lk : lockst; st_mem : V; st_thr : list (list action) }.
 
   Definition init (v0 : V) (ths : list (list call)) : state :=
     mkst (mklk false 0 0) v0 (map thread_actions ths).
 
-  (* a step is labelled with the thread, its event and the value of the map after it
-     (= the value observed, for a read) *)
-  Definition label : Type := (nat * event * V)%type.
-  Definition l_tid (l : label) : nat := fst (fst l).
-  Definition l_ev (l : label) : event := snd (fst l).
-  Definition l_val (l : label) : V := snd l.
+  (* a step is labelled with the thread, the call index, the event and the value of the map
+     after it (= the value observed, for a read) *)
+  Record label := mklab { l_tid : nat; l_cid : nat; l_ev : event; l_val : V }.
 
   Fixpoint replace {A} (i : nat) (x : A) (l : list A) : list A :=
     match l, i with
@@ -176,18 +190,18 @@ Section Sem.
 
   Definition next_event (s : state) (i : nat) : option event :=
     match nth_error (st_thr s) i with
-    | Some ((e, _) :: _) => Some e
+    | Some (a :: _) => Some (a_ev a)
     | _ => None
     end.
 
   (* executable small step of thread i *)
   Definition step_fn (s : state) (i : nat) : option (label * state) :=
     match nth_error (st_thr s) i with
-    | Some ((e, f) :: rest) =>
-        match lk_step (st_lk s) e with
+    | Some (a :: rest) =>
+        match lk_step (st_lk s) (a_ev a) with
         | LkNext l' =>
-            let m' := match e with EvWrite => f (st_mem s) | _ => st_mem s end in
-            Some ((i, e, m'), mkst l' m' (replace i rest (st_thr s)))
+            let m' := match a_ev a with EvWrite => a_upd a (st_mem s) | _ => st_mem s end in
+            Some (mklab i (a_cid a) (a_ev a) m', mkst l' m' (replace i rest (st_thr s)))
         | _ => None
         end
     | _ => None
@@ -200,8 +214,6 @@ Section Sem.
   | reach_nil : reach s0 [] s0
   | reach_cons : forall h s l s', reach s0 h s -> step s l s' -> reach s0 (l :: h) s'.
 
-  Definition is_access (e : event) : bool := match e with EvRead | EvWrite => true | _ => false end.
-  Definition is_write (e : event) : bool := match e with EvWrite => true | _ => false end.
   Definition enabled (s : state) (e : event) : bool :=
     match lk_step (st_lk s) e with LkNext _ => true | _ => false end.
 
@@ -231,11 +243,15 @@ Section Sem.
     let n := seq 0 (List.length (st_thr s)) in
     existsb (fun i => existsb (fun j => raceb_pair s i j) n) n.
 
-  Fixpoint run_sched (s : state) (sched : list nat) : option state :=
+  (* run a schedule (list of thread ids); the history is returned newest first.  A schedule
+     that names a thread which is blocked or finished is not a run (None). *)
+  Fixpoint run_from (h : list label) (s : state) (sched : list nat) : option (list label * state) :=
     match sched with
-    | [] => Some s
-    | i :: sched' => match step_fn s i with Some (_, s') => run_sched s' sched' | None => None end
+    | [] => Some (h, s)
+    | i :: sched' => match step_fn s i with Some (l, s') => run_from (l :: h) s' sched' | None => None end
     end.
+  Definition run (sched : list nat) (v0 : V) (ths : list (list call)) : option (list label * state) :=
+    run_from [] (init v0 ths) sched.
 
   (* depth-first search for a schedule that reaches a racy state *)
   Fixpoint find_race (fuel : nat) (s : state) : option (list nat) :=
@@ -258,22 +274,41 @@ Section Sem.
            end) (seq 0 (List.length (st_thr s)))
     end.
 
-  (* ---- history observations used by the sequential-equivalence statements ---- *)
-  Definition is_lock_event (e : event) : bool :=
-    match e with EvRLock | EvRUnlock | EvLockReq | EvLock | EvUnlock => true | _ => false end.
-
-  (* thread t performs no lock operation in this stretch of history *)
-  Definition quiet (t : nat) (h : list label) : Prop :=
-    forall l, In l h -> l_tid l = t -> is_lock_event (l_ev l) = false.
-
-  (* value of the map committed by the last completed write section (history newest first) *)
-  Fixpoint last_commit (v0 : V) (h : list label) : V :=
-    match h with
-    | [] => v0
-    | l :: h' => match l_ev l with EvUnlock => l_val l | _ => last_commit v0 h' end
+  (* ---- sequential specification: a call run alone on the abstract map ---- *)
+  (* observations of its reads (in order) and the map after it; locks play no role *)
+  Fixpoint trace_seq (f : V -> V) (tr : list event) (v : V) : list V * V :=
+    match tr with
+    | [] => ([], v)
+    | EvRead :: tr' => let '(o, v') := trace_seq f tr' v in (v :: o, v')
+    | EvWrite :: tr' => trace_seq f tr' (f v)
+    | _ :: tr' => trace_seq f tr' v
     end.
+  Definition call_seq (c : call) (v : V) : list V * V := trace_seq (c_upd c) (c_trace c) v.
+
+  (* sequential execution of a list of calls: the value of the map after each of them *)
+  Fixpoint seq_vals (v : V) (cs : list call) : list V :=
+    match cs with
+    | [] => []
+    | c :: cs' => let v' := snd (call_seq c v) in v' :: seq_vals v' cs'
+    end.
+  Definition seq_mem (v : V) (cs : list call) : V := fold_left (fun v c => snd (call_seq c v)) cs v.
+
+  Definition get_call (ths : list (list call)) (id : nat * nat) : option call :=
+    match nth_error ths (fst id) with
+    | Some cs => nth_error cs (snd id)
+    | None => None
+    end.
+
+  (* the map accesses of a history, oldest first: which call, and the value after the access *)
+  Definition accesses (h : list label) : list label := filter (fun l => is_access (l_ev l)) (rev h).
+  Definition lin_order (h : list label) : list (nat * nat) := map (fun l => (l_tid l, l_cid l)) (accesses h).
+  Definition lin_vals (h : list label) : list V := map l_val (accesses h).
 End Sem.
 
+Arguments mkact {V}.
+Arguments a_cid {V}.
+Arguments a_ev {V}.
+Arguments a_upd {V}.
 Arguments mkcall {V}.
 Arguments c_trace {V}.
 Arguments c_upd {V}.
@@ -281,6 +316,11 @@ Arguments mkst {V}.
 Arguments st_lk {V}.
 Arguments st_mem {V}.
 Arguments st_thr {V}.
+Arguments mklab {V}.
+Arguments l_tid {V}.
+Arguments l_cid {V}.
+Arguments l_ev {V}.
+Arguments l_val {V}.
 Arguments init {V}.
 Arguments step_fn {V}.
 Arguments step {V}.
@@ -290,19 +330,64 @@ Arguments faulty {V}.
 Arguments all_done {V}.
 Arguments can_step {V}.
 Arguments raceb {V}.
-Arguments run_sched {V}.
+Arguments raceb_pair {V}.
+Arguments run_from {V}.
+Arguments run {V}.
 Arguments find_race {V}.
 Arguments next_event {V}.
 Arguments enabled {V}.
-Arguments quiet {V}.
-Arguments last_commit {V}.
-Arguments l_tid {V}.
-Arguments l_ev {V}.
-Arguments l_val {V}.
 Arguments thread_actions {V}.
+Arguments thread_actions_from {V}.
 Arguments call_actions {V}.
+Arguments trace_seq {V}.
+Arguments call_seq {V}.
+Arguments seq_vals {V}.
+Arguments seq_mem {V}.
+Arguments get_call {V}.
+Arguments accesses {V}.
+Arguments lin_order {V}.
+Arguments lin_vals {V}.
 
 (* calls admitted for a program = list of method skeletons: every call is one control
    path of one of the methods *)
 Definition call_of {V} (prog : list skeleton) (c : @call V) : Prop :=
   exists sk, In sk prog /\ In (c_trace c) (paths sk).
+
+Definition wf_threads {V} (prog : list skeleton) (ths : list (list (@call V))) : Prop :=
+  Forall (Forall (call_of prog)) ths.
+
+(* ------------------------------------------------------------------------------------ *)
+(* 4. Bounded search used when the discipline check fails: enumerate 2 or 3 concurrent  *)
+(*    calls (one per thread) of the given methods and look for a racy schedule.          *)
+(*    Immutable reads are dropped first (they commute with everything).                  *)
+(* ------------------------------------------------------------------------------------ *)
+Definition strip_imm (tr : list event) : list event :=
+  filter (fun e => match e with EvImm => false | _ => true end) tr.
+
+(* (method index, path index, stripped trace) of every control path of every method *)
+Definition all_paths (ms : list skeleton) : list (nat * nat * list event) :=
+  flat_map (fun '(mi, sk) => map (fun '(pi, tr) => (mi, pi, strip_imm tr))
+                               (combine (seq 0 (List.length (paths sk))) (paths sk)))
+           (combine (seq 0 (List.length ms)) ms).
+
+Definition unit_call (tr : list event) : @call unit := mkcall tr (fun u => u).
+
+Definition try_config (fuel : nat) (cfg : list (nat * nat * list event)) : option (list (nat * nat) * list nat) :=
+  match find_race fuel (init tt (map (fun '(_, _, tr) => [unit_call tr]) cfg)) with
+  | Some sch => Some (map (fun '(mi, pi, _) => (mi, pi)) cfg, sch)
+  | None => None
+  end.
+
+Fixpoint first_some {A B} (f : A -> option B) (l : list A) : option B :=
+  match l with
+  | [] => None
+  | a :: l' => match f a with Some b => Some b | None => first_some f l' end
+  end.
+
+(* result: the calls (method index, path index), one per thread, and the schedule (thread ids) *)
+Definition race_witness (ms : list skeleton) : option (list (nat * nat) * list nat) :=
+  let ps := all_paths ms in
+  match first_some (fun a => first_some (fun b => try_config 64 [a; b]) ps) ps with
+  | Some w => Some w
+  | None => first_some (fun a => first_some (fun b => first_some (fun c => try_config 64 [a; b; c]) ps) ps) ps
+  end.
